@@ -19,6 +19,7 @@ import (
 	"syscall"
 
 	"github.com/cosmos/cosmos-proto/zzverif/glue"
+	"google.golang.org/protobuf/encoding/prototext"
 	"google.golang.org/protobuf/encoding/protowire"
 	"google.golang.org/protobuf/proto"
 	"google.golang.org/protobuf/reflect/protoreflect"
@@ -464,6 +465,36 @@ func totalCase(rep *Report, s *glue.Subject, d MD, idx int, S uint64) {
 		_ = proto.Equal(c, m)
 		_ = ReflToIR(m.ProtoReflect())
 		_ = StructToIR(m)
+		// compared with a message that differs (only) in its unknown fields: a well-formed unknown record of the same
+		// total length, so that the library really parses both unknown sets
+		for _, um := range withUnknown(m.ProtoReflect(), 0) {
+			u := um.GetUnknown()
+			if len(u) < 2 {
+				continue
+			}
+			// tag of field 15 (one byte) + varint padded to the remaining length, or a bytes record for longer sets
+			var y []byte
+			if len(u) <= 11 {
+				y = appendVarintN([]byte{0x78}, 1, len(u)-1)
+			} else {
+				y = []byte{0x7a}
+				pl := len(u) - 2
+				if pl > 127 {
+					pl = len(u) - 3
+				}
+				y = protowire.AppendVarint(y, uint64(pl))
+				y = append(y, make([]byte, pl)...)
+			}
+			if len(y) != len(u) {
+				continue
+			}
+			o := um.New()
+			o.SetUnknown(y)
+			_ = proto.Equal(um.Interface(), o.Interface())
+			_ = proto.Equal(o.Interface(), um.Interface())
+		}
+		// rendered as text (unknown fields are printed by the generated String methods)
+		_ = prototext.MarshalOptions{AllowPartial: true, EmitUnknown: true}.Format(m)
 	})
 	if pan {
 		rep.Violate("C06", "total/accepted-message-unusable/"+class, tn, fmt.Sprintf("input %s accepted, then Size/Marshal/Equal/Clone/Range: %s", hx(in), pmsg), rc)
@@ -771,4 +802,32 @@ func (t *totalGen) manySmallRecords(turn int) ([]byte, string, bool) {
 		}
 	}
 	return b, kind, true
+}
+
+// withUnknown returns the messages in the tree of m (m included) that carry unknown bytes.
+func withUnknown(m protoreflect.Message, depth int) []protoreflect.Message {
+	var out []protoreflect.Message
+	if depth > 50 || !m.IsValid() {
+		return out
+	}
+	if len(m.GetUnknown()) > 0 {
+		out = append(out, m)
+	}
+	m.Range(func(fd FD, v protoreflect.Value) bool {
+		switch {
+		case fd.IsList() && fd.Kind() == protoreflect.MessageKind:
+			for i := 0; i < v.List().Len() && len(out) < 8; i++ {
+				out = append(out, withUnknown(v.List().Get(i).Message(), depth+1)...)
+			}
+		case fd.IsMap() && fd.MapValue().Kind() == protoreflect.MessageKind:
+			v.Map().Range(func(_ protoreflect.MapKey, mv protoreflect.Value) bool {
+				out = append(out, withUnknown(mv.Message(), depth+1)...)
+				return len(out) < 8
+			})
+		case !fd.IsList() && !fd.IsMap() && fd.Kind() == protoreflect.MessageKind:
+			out = append(out, withUnknown(v.Message(), depth+1)...)
+		}
+		return len(out) < 8
+	})
+	return out
 }
